@@ -56,14 +56,16 @@ class MessageSerializer(object):
     for k, v in ctx.items():
       if not isinstance(k, string_types):
         raise NotImplementedError("Unsupported key type in context")
+      k = k.encode('utf-8')
       k_len = len(k)
-      buf.write(pack('!h%ds' % k_len, k_len, k.encode('utf-8')))
+      buf.write(pack('!h%ds' % k_len, k_len, k))
       if isinstance(v, Deadline):
         buf.write(pack('!h', 16))
         buf.write(pack('!qq', v._ts, v._timeout))
       elif isinstance(v, string_types):
+        v = v.encode('utf-8')
         v_len = len(v)
-        buf.write(pack('!h%ds' % v_len, v_len, v.encode('utf-8')))
+        buf.write(pack('!h%ds' % v_len, v_len, v))
       else:
         raise NotImplementedError("Unsupported value type in context.")
 
